@@ -497,7 +497,7 @@ impl C12 {
 // ------------------------------------------------------------------------------------------
 
 fn gen_data(r: &mut Xo, n: usize, p: usize, f32m: bool) -> (Vec<Vec<f64>>, &'static str) {
-    let kind = r.below(7);
+    let kind = r.below(8);
     // scales down to 1e-4: blob spreads are then >= 1e-6, still 10000x the tree's absolute 1e-10 merge radius
     let scale = *r.pick(&[0.01, 1.0, 1.0, 10.0, 1000.0, 1e-4]);
     let offset = if r.chance(0.3) { scale * r.range(-20.0, 20.0) } else { 0.0 };
@@ -546,6 +546,20 @@ fn gen_data(r: &mut Xo, n: usize, p: usize, f32m: bool) -> (Vec<Vec<f64>>, &'sta
             let l = r.usize_in(2, 9) as u64;
             for _ in 0..n {
                 data.push((0..p).map(|_| r.below(l + 1) as f64 * step).collect());
+            }
+        }
+        7 => {
+            name = "geometric-axes";
+            // rows b^-i along the coordinate axes: every split of the tree peels off about one row, so the tree
+            // gets as deep as there are rows
+            let b = *r.pick(&[2.0f64, 2.5, 3.0]);
+            let imax = (1e5f64.ln() / b.ln()).floor() as usize;
+            for t in 0..n {
+                let j = t % p;
+                let i = (t / p) % (imax + 1);
+                let mut row = vec![0.0; p];
+                row[j] = scale.max(1.0) * b.powi(-(i as i32));
+                data.push(row);
             }
         }
         6 => {
